@@ -24,6 +24,7 @@ var histClasses = []wkClass{
 	{"dp", ""}, {"dp", "immutable"}, {"dp", "never"},
 	{"dppool", ""}, {"dppool", "never"}, {"dppool", "immutable"}, // a named pool means "never", whatever the policy annotation says
 	{"bare", ""}, {"bare", "never"},
+	{"stspool", ""}, // a statefulset whose pods use a named IP pool
 }
 
 func histSystems(cloud bool) []*HistSys {
@@ -67,7 +68,7 @@ func cloudHistSystems() []*HistSys {
 	pre := []Op{{Kind: "create", A: 0}, {Kind: "sched", A: 0}, {Kind: "create", A: 1}, {Kind: "sched", A: 1}, {Kind: "delete", A: 0}, {Kind: "deliver", A: 0}}
 	var out []*HistSys
 	for _, c := range histClasses {
-		if c.Policy == "" && c.Kind != "dppool" {
+		if c.Policy == "" && c.Kind != "dppool" && c.Kind != "stspool" {
 			continue
 		}
 		out = append(out, &HistSys{Class: c, Cfg: cfgTwoPools(true), NPods: 2, Replicas: 2, Ops: ops, PrefixName: "cloud-onedeleted", Prefix: pre})
@@ -118,10 +119,10 @@ func c02ModelCanon(h *HistSys, w *world.World) string {
 func c02Model(h *HistSys, hist []Op, w *world.World) (*Finding, string) {
 	pol := h.Class.Policy
 	dp := h.Class.Kind == "dp" || h.Class.Kind == "dppool"
-	if pol == "" && h.Class.Kind != "dppool" {
+	if pol == "" && h.Class.Kind != "dppool" && h.Class.Kind != "stspool" {
 		return nil, ""
 	}
-	never := pol == "never" || h.Class.Kind == "dppool"
+	never := pol == "never" || h.Class.Kind == "dppool" || h.Class.Kind == "stspool" // a named pool means never
 	held := map[int]string{}      // identity classes: pod index -> ip
 	appHeld := map[string]bool{}  // deployment classes: ips the app/pool holds
 	holder := map[string]string{} // ip -> uid of the pod it was last bound to
@@ -252,7 +253,7 @@ func oracleC02AtFilter(h *HistSys, hist []Op, w *world.World, obs Obs) *Finding 
 		return nil
 	}
 	pol := h.Class.Policy
-	if pol == "" && h.Class.Kind != "dppool" {
+	if pol == "" && h.Class.Kind != "dppool" && h.Class.Kind != "stspool" {
 		return nil
 	}
 	spec := h.pod(obs.Op.A)
@@ -575,7 +576,7 @@ func init() {
 			}
 			var jobs []Job
 			for _, h := range histSystems(false) {
-				if h.Class.Policy == "" && h.Class.Kind != "dppool" {
+				if h.Class.Policy == "" && h.Class.Kind != "dppool" && h.Class.Kind != "stspool" {
 					continue
 				}
 				h.ModelCanon = c02ModelCanon
